@@ -170,12 +170,13 @@ Example announced_binding_example :
   snd (run_seq (code_grant ex_world 5 0%Z (ex_treq (mkCred 3 true) (mkBind None ex_cert))) ex_store) = OErr EInvalidRequest.
 Proof. vm_compute. split; [eexists; repeat split; reflexivity|split; reflexivity]. Qed.
 
-(* (4) The confirmation is truthful.  For each of the three issuing grants (client_credentials,
-   authorization_code, CIBA), every store, configuration and request: the cnf of a token response
+(* (4) The confirmation is truthful.  For each of the four grants that write a new grant session
+   (client_credentials, authorization_code, CIBA, jwt-bearer - for an authenticated or the anonymous
+   client), every store, configuration and request: the cnf of a token response
    is that of the grant session the operation wrote; a non-empty jkt is the thumbprint of the key
    that is embedded in, and signed, the accepted proof of this very request; a non-empty x5t is the
    thumbprint of the certificate this request presented; token_type is DPoP iff jkt is non-empty. *)
-Theorem cnf_truthful : forall h, h = cc_grant \/ h = code_grant \/ h = ciba_grant ->
+Theorem cnf_truthful : forall h, h = cc_grant \/ h = code_grant \/ h = ciba_grant \/ h = jwt_bearer_grant ->
   forall w n now r st st' t,
   run_seq (h w n now r) st = (st', OTokens t) ->
   (tr_jkt t <> 0 ->
@@ -230,6 +231,39 @@ Proof.
   exact (required_binding_lemma h w n now r st st' t Hh (build_req_en prof opts (w_cfg w) Hb) Hwf).
 Qed.
 Print Assumptions required_binding_never_unbound.
+
+(* (5b) The same for the jwt-bearer grant, whose client is the authenticated one or - for a request with
+   no client identification at all, where the embedder allows anonymous use - the anonymous client
+   (which requires nothing itself: such a request is bound by the server's requirements alone). *)
+Theorem required_binding_never_unbound_jwt_bearer : forall prof opts w n now r st st' t,
+  build prof opts = Some (w_cfg w) ->
+  (forall p k, b_dpop (t_bind r) = Some p -> dp_jwk p = JwkPublic k -> k <> 0) ->
+  run_seq (jwt_bearer_grant w n now r) st = (st', OTokens t) ->
+  exists c, (authn w st (t_cred r) = Some c \/
+             (authn w st (t_cred r) = None /\ c = anonymous_client (w_cfg w) /\
+              cr_id (t_cred r) = 0 /\ cf_jwt_bearer_authn_required (w_cfg w) = false)) /\
+    (cf_dpop_required (w_cfg w) = true \/ (cf_dpop_enabled (w_cfg w) = true /\ c_dpop_required c = true) ->
+       tr_jkt t <> 0 /\ tr_dpop t = true) /\
+    (cf_tls_binding_required (w_cfg w) = true \/ (cf_tls_binding_enabled (w_cfg w) = true /\ c_tls_required c = true) ->
+       tr_x5t t <> 0) /\
+    (cf_binding_required (w_cfg w) = true -> tr_jkt t <> 0 \/ tr_x5t t <> 0).
+Proof.
+  intros prof opts w n now r st st' t Hb Hwf.
+  exact (required_binding_jwt_bearer w n now r st st' t (build_req_en prof opts (w_cfg w) Hb) Hwf).
+Qed.
+Print Assumptions required_binding_never_unbound_jwt_bearer.
+
+(* non-vacuity for jwt-bearer: under WithDPoPRequired a request without any client identification gets a
+   token bound to the key of its proof, and nothing without a proof *)
+Example required_binding_jwt_bearer_example :
+  let cfg := match build POpenID [WithJWTBearerGrant; WithDPoPRequired] with Some c => c | None => base_config POpenID end in
+  let w := mkWorld cfg [] in
+  let rq b := mkTReq (mkCred 0 false) b "openid" 0 "" 0 PkEmpty 0 HgOk BaApprove [] (AsOk "alice") in
+  cf_dpop_required cfg = true /\
+  (exists t, snd (run_seq (jwt_bearer_grant w 5 0%Z (rq (mkBind (Some (ex_proof ex_key2 0)) 0))) empty_store) = OTokens t
+             /\ tr_jkt t = ex_key2 /\ tr_dpop t = true) /\
+  snd (run_seq (jwt_bearer_grant w 5 0%Z (rq (mkBind None 0))) empty_store) = OErr EInvalidRequest.
+Proof. vm_compute. repeat split; try reflexivity. eexists; repeat split; reflexivity. Qed.
 
 (* the hypotheses are satisfiable: under WithDPoPRequired + WithTokenBindingRequired a confidential
    client obtains a client_credentials token with a proof, and none without *)
